@@ -473,7 +473,11 @@ func (g *gen) sqlFiles() (*file, *file) {
 				guards = append(guards, "guard int `gomacro-sql-guard:\"7\"`")
 			default:
 				e := s.supportEnum()
-				guards = append(guards, fmt.Sprintf("guard %s `gomacro-sql-guard:\"#[%s.%s]\"`", e.Name, e.Name, e.Exported[0]))
+				pin := e.Exported[0]
+				if len(e.Unexported) > 0 && r.Bool() {
+					pin = e.Unexported[0] // a guard may be pinned to an unexported constant
+				}
+				guards = append(guards, fmt.Sprintf("guard %s `gomacro-sql-guard:\"#[%s.%s]\"`", e.Name, e.Name, pin))
 			}
 			t.Guards = append(t.Guards, "guard")
 		}
